@@ -145,6 +145,18 @@ def run_click(cmd, name, args, sub=False):
                         (name, args, rc, out[-300:]))
 
 
+def _from_list(lines, pf):
+    """Import a caller-owned list of lines; the list is the caller's (it is
+    left as it was, and importing it again gives the same table)."""
+    from biom import Table
+    held = list(lines)
+    t = Table.from_tsv(lines, None, None, pf)
+    if lines != held:
+        raise Violation("input-modified", "from_tsv changed the list of "
+                        "lines it was given: %r -> %r" % (held, lines))
+    return t
+
+
 def importer(text, case, d):
     from biom import Table, load_table
     how = case["import"]
@@ -157,12 +169,11 @@ def importer(text, case, d):
         # the lines of the text; a final newline terminates the last line, it
         # does not start an extra empty one
         body = text[:-1] if text.endswith("\n") else text
-        return Table.from_tsv(body.split("\n"), None, None, pf), how
+        return _from_list(body.split("\n"), pf), how
     if how == "stringio":
         return Table.from_tsv(io.StringIO(text), None, None, pf), how
     if how == "readlines":
-        return Table.from_tsv(io.StringIO(text).readlines(), None, None,
-                              pf), how
+        return _from_list(io.StringIO(text).readlines(), pf), how
     p = os.path.join(d, "in.tsv")
     if how == "gzip":
         p += ".gz"
